@@ -40,21 +40,39 @@ static void drv_reset(void)
 	nuni = nrel = 0;
 }
 
-/* value at a path string (separator sep) or null */
-static const char *lookup(const MPT_INTERFACE(config) *cfg, const char *str, int sep)
+/* value at a path string (separator sep) or null; str null = no path (the view's base itself) */
+static int grab_cb(void *ctx, MPT_INTERFACE(convertable) *val, const MPT_INTERFACE(collection) *sub)
+{
+	(void) sub;
+	return grab_text(val, (struct grab *) ctx);
+}
+static char *lookup(const MPT_INTERFACE(config) *cfg, const char *str, int sep)
 {
 	MPT_STRUCT(path) p = MPT_PATH_INIT;
-	const char *val = 0;
+	struct grab g = { 0, 0 };
 	p.sep = (char) sep;
 	p.assign = 0;
 	if (str) mpt_path_set(&p, str, -1);
-	if (mpt_config_getp(cfg, &p, 's', &val) < 0) return 0;
-	return val;
+	if (mpt_config_query(cfg, &p, grab_cb, &g) < 0 || !g.found) {
+		free(g.text);
+		return 0;
+	}
+	return g.text;
+}
+/* the same question through mpt_config_get / mpt_config_getp with type 's' (diagnostic) */
+static int lookup_s(const MPT_INTERFACE(config) *cfg, const char *str, int sep)
+{
+	MPT_STRUCT(path) p = MPT_PATH_INIT;
+	const char *val = 0;
+	if (str && sep == '.') return mpt_config_get(cfg, str, 's', &val) >= 0 && val;
+	p.sep = (char) sep;
+	if (str) mpt_path_set(&p, str, -1);
+	return mpt_config_getp(cfg, &p, 's', &val) >= 0 && val;
 }
 
 static void emit_store(struct cmd *c, const char *ret, const char *retval, int isval)
 {
-	int i;
+	int i, present = 0, as_s = 0;
 	drv_begin(c);
 	if (drv_int(c, "q", 0)) {      /* prefix step of a replayed behaviour: executed, not logged */
 		drv_dbg();
@@ -64,14 +82,23 @@ static void emit_store(struct cmd *c, const char *ret, const char *retval, int i
 	if (isval) j_val("ret", retval);
 	else j_str("ret", ret);
 	j_arr_open("all");
-	for (i = 0; i < nuni; i++) j_item_val(lookup(0, uni[i], usep));
+	for (i = 0; i < nuni; i++) {
+		char *v = lookup(0, uni[i], usep);
+		j_item_val(v);
+		if (v) { present++; if (lookup_s(0, uni[i], usep)) as_s++; }
+		free(v);
+	}
 	j_arr_close();
 	j_arr_open("rel");
 	for (i = 0; i < nrel; i++) {
-		j_item_val(viewcfg ? lookup(viewcfg, reluni[i], usep) : 0);
+		char *v = viewcfg ? lookup(viewcfg, reluni[i], usep) : 0;
+		j_item_val(v);
+		free(v);
 	}
 	j_arr_close();
 	drv_dbg();
+	j_int("present", present);     /* paths of the universe that have a value ... */
+	j_int("as_s", as_s);           /* ... and how many of them mpt_config_get(.., 's') answers */
 	drv_end();
 }
 
@@ -110,6 +137,7 @@ static void drv_step(struct cmd *c)
 	if (!strcmp(a, "init")) {
 		char *base = arg_str(c, "base");
 		usep = (int) drv_int(c, "sep", '.');
+		po.sep = (char) usep;      /* the path object starts empty with the history's separator */
 		nuni = parse_list(drv_raw(c, "uni"), uni);
 		nrel = parse_list(drv_raw(c, "rel"), reluni);
 		if (base[0]) {
@@ -141,7 +169,9 @@ static void drv_step(struct cmd *c)
 			emit_store(c, r < 0 ? "refused" : "ok", 0, 0);
 		}
 		else {
-			emit_store(c, 0, lookup(cfg, path, sep), 1);
+			char *v = lookup(cfg, path, sep);
+			emit_store(c, 0, v, 1);
+			free(v);
 		}
 		free(path);
 		return;
@@ -174,17 +204,17 @@ static void drv_step(struct cmd *c)
 	}
 	if (!strcmp(a, "pnext")) {
 		int r = mpt_path_next(&po);
-		if (r < 0) emit_path(c, 0, 0, "none"); else emit_path(c, 1, r, 0);
+		emit_path(c, 1, r < 0 ? -1 : r, 0);
 		return;
 	}
 	if (!strcmp(a, "plast")) {
 		int r = mpt_path_last(&po);
-		if (r < 0) emit_path(c, 0, 0, "none"); else emit_path(c, 1, r, 0);
+		emit_path(c, 1, r < 0 ? -1 : r, 0);
 		return;
 	}
 	if (!strcmp(a, "pdel")) {
 		int r = mpt_path_del(&po);
-		if (r < 0) emit_path(c, 0, 0, "none"); else emit_path(c, 1, r, 0);
+		emit_path(c, 1, r < 0 ? -1 : r, 0);
 		return;
 	}
 	if (!strcmp(a, "paddelem")) {
